@@ -10,6 +10,8 @@
     knew F K cb | kadd F K asn ski spki src | krm F K … | ksrcrm F K src | kget F K asn ski
     kbyski F K ski | kcopyx F A B src | kfree F K | kfreenn F K
     sync F reset <hex>           (socket 0 with tables P0 / K0; see RtrModel.Alloc.syncF)
+    pair - T <op> <record> | <op> <record>     (op = padd | prm | kadd | krm, both on table T: the harness runs
+                                                the two calls in two threads; the model runs them one after the other)
          -> <result> ; <trace> ; live=<n>
     pdump P | plog P | pstat P | kdump K | klog K | kstat K | live
 
@@ -166,13 +168,34 @@ def kresStr (rc : SpkiRc) (rs : List SpkiRec) : String :=
   if rc = .success then (s!"0 {rs.length} " ++ " ".intercalate (rs.map krecStr)).trimAscii.toString
   else krcStr rc
 
+/-- one half of a `pair` line on table `i` -/
+def pairOp (s : St) (a : A) (i : Nat) (ws : List String) : Option (St × A × String) :=
+  match ws with
+  | "padd" :: r => (parseRec r).map fun r =>
+      let q := addF a (s.ptabs[i]!) r
+      ({ s with ptabs := s.ptabs.set! i q.2.1 }, q.1, prcStr q.2.2)
+  | "prm" :: r => (parseRec r).map fun r =>
+      let q := removeF a (s.ptabs[i]!) r
+      ({ s with ptabs := s.ptabs.set! i q.2.1 }, q.1, prcStr q.2.2)
+  | "kadd" :: r => match parseKRec r, s.ktabs[i]! with
+    | some r, some T =>
+      let q := kaddF a T r
+      some ({ s with ktabs := s.ktabs.set! i (some q.2.1) }, q.1, krcStr q.2.2)
+    | _, _ => none
+  | "krm" :: r => match parseKRec r, s.ktabs[i]! with
+    | some r, some T =>
+      let q := kremoveF a T r
+      some ({ s with ktabs := s.ktabs.set! i (some q.2.1) }, q.1, krcStr q.2.2)
+    | _, _ => none
+  | _ => none
+
 def step (s : St) (line : String) : St × String :=
   let bad := (s, "bad-op")
   match words line with
   | "setsizes" :: rest => match setSizes rest with
     | some z => ({ s with sz := z }, "ok")
     | none => bad
-  | ["live"] => (s, s!"live={s.live} foreign={s.foreign} alien=0")
+  | ["live"] => (s, s!"live={s.live} foreign={s.foreign} alien=0 double=0")
   | ["pdump", t] => match tabIdx t with
     | some i => (s, ("recs " ++ " ".intercalate ((s.ptabs[i]!).recs.map recStr)).trimAscii.toString)
     | none => bad
@@ -213,6 +236,16 @@ def step (s : St) (line : String) : St × String :=
     | some k =>
     let a : A := { budget := k, trace := [] }
     match op, rest with
+    | "pair", t :: ws => match tabIdx t, k with
+      | some i, none =>
+        let l := ws.takeWhile (· ≠ "|")
+        let r := (ws.dropWhile (· ≠ "|")).drop 1
+        match pairOp s a i l with
+        | some (s1, a1, r1) => match pairOp s1 a1 i r with
+          | some (s2, a2, r2) => fin s2 a2 s!"{r1} {r2} sched=serial"
+          | none => bad
+        | none => bad
+      | _, _ => bad
     | "pnew", [t, cb] => match tabIdx t, parseCb cb with
       | some i, some cb =>
         let T := s.ptabs[i]!
